@@ -90,7 +90,7 @@ func dfChild(job dfJob) {
 		go func() {
 			defer wg.Done()
 			<-start
-			df := dateutil.NewDateFormat(pat) // this goroutine's own formatter
+			df := newDF(pat) // this goroutine's own formatter
 			calls := 0
 			var fs []dfFinding
 			for i := 0; ; i++ {
@@ -98,7 +98,7 @@ func dfChild(job dfJob) {
 					break
 				}
 				if job.Renew {
-					df = dateutil.NewDateFormat(pat)
+					df = newDF(pat)
 				}
 				t := baseMs + r.Range(0, nDays-1)*dayMs + r.Range(0, dayMs-1)
 				var text, got string
@@ -195,8 +195,8 @@ func objectsIndependent(rep *vh.Report, add func(line string, e expect), rng *vh
 	}
 	for _, p := range probes {
 		for try := 0; try < 30; try++ {
-			a := dateutil.NewDateFormat(p.pat)
-			b := dateutil.NewDateFormat(p.pat)
+			a := newDF(p.pat)
+			b := newDF(p.pat)
 			vh.Guard(func() { a.Parse(p.first) })
 			var outs []string
 			var nows []int64
@@ -224,8 +224,6 @@ func objectsIndependent(rep *vh.Report, add func(line string, e expect), rng *vh
 				continue
 			}
 			// what a lone object gives for the same calls at the same clock readings
-			c := dateutil.NewDateFormat(p.pat + "")
-			_ = c
 			var b2 strings.Builder
 			fmt.Fprintf(&b2, "Q %s", cps(p.pat))
 			for k, tx := range p.texts {
